@@ -1033,8 +1033,12 @@ def e2e_semantics(chk, env):
             n += step
         body = rng.choice(('n', '[n]', 'n*', 'x', '<n>', 'n-n', '(n)'))
         sep = rng.choice((None, ', ', ';', '', ' + '))
-        fsep = rng.choice((None, None, ' and ', '/')) if sep is not None else None
+        fsep = rng.choice((None, None, ' and ', '/', '')) if sep is not None else None       # '' is a separator like any other
         flags = rng.choice((0, 0, 0, 1, 2, 3))
+        if sep is not None and rng.random() < 0.25:
+            # flag 4: the variable is replaced in each separator, too (by the value of the element before it)
+            flags += 4
+            sep = rng.choice(('-n-', 'n', ' n: ', sep))
         args = ['n', body] + ([sep] if sep is not None else []) + ([fsep] if fsep is not None else [])
         d = rng.choice([c for c in '|/@!' if all(c not in a for a in args)])
         strs = '(' + ','.join(args) + ')' if all(',' not in a for a in args) else d + ';' + ';'.join(args) + ';' + d
@@ -1046,13 +1050,18 @@ def e2e_semantics(chk, env):
             esep = ',' + esep
         if flags & 2:
             esep = esep + ','
-        exp = join_spec([body.replace('n', str(k)) for k in nums], [esep] * len(nums), fsep)
+        exp = join_spec([body.replace('n', str(k)) for k in nums], [esep.replace('n', str(k)) if flags & 4 else esep for k in nums], fsep)
         both('#FOR' + ints + strs, exp, 'for', {'start': start, 'stop': stop, 'step': step, 'flags': flags, 'expected': exp})
+        if flags & 4:
+            flags, sep = flags - 4, rng.choice((None, ', ', ';'))
+            args = ['n', body] + ([sep] if sep is not None else [])
+            strs = '(' + ','.join(args) + ')' if all(',' not in a for a in args) else d + ';' + ';'.join(args) + ';' + d
+            fsep = None
         vals = [rng.choice(('a', 'bb', '1', '22', 'x y', 'Q')) for _ in range(rng.randrange(1, 5))]
         exp = join_spec([body.replace('n', v) for v in vals], [sep or ''] * len(vals), fsep)
         both('#FOREACH(' + ','.join(vals) + ')' + strs, exp, 'foreach', {'values': vals, 'expected': exp})
         keys = [rng.randrange(0, 6) for _ in range(rng.randrange(0, 5))]
-        pairs = [(k, rng.choice(('a', 'b', 'cc', 'd', ''))) for k in keys]
+        pairs = [(k, rng.choice(('a', 'b', 'cc', 'd', '', 'x:y', ':', '1:2'))) for k in keys]    # the first colon ends the key
         look = rng.randrange(-1, 7)
         exp = 'dflt'
         for k, v in pairs:
@@ -1064,6 +1073,117 @@ def e2e_semantics(chk, env):
         op = rng.choice(('<', '<=', '==', '!=', '>', '>='))
         truth = {'<': a < b, '<=': a <= b, '==': a == b, '!=': a != b, '>': a > b, '>=': a >= b}[op]
         both('#IF(%d%s%d)(yes,no)' % (a, op, b), 'yes' if truth else 'no', 'if', {'cond': '%d%s%d' % (a, op, b)})
+        # truth value of an arithmetic expression: non-zero (negative values included) is true
+        v = rng.choice((0, 1, -1, 2, -2, 255, -256, a * b, a - b))
+        both('#IF(%d)%s' % (v, rng.choice(('(yes,no)', '[yes,no]', '{yes,no}', '/|yes|no|/'))), 'yes' if v else 'no', 'if', {'cond': str(v)})
+    # #STRaddr[,flags,length][(end)]: terminators (zero byte, bit 7, end expression, length), strip flags, #SPACE runs
+    def exact(w, html, text):
+        r = real_expand(env, w, text)
+        got = decode(r) if r.startswith('ok') else r
+        return htmllib.unescape(got).replace('\xa0', ' ') if html and r.startswith('ok') else got
+    for _ in range(chk.scale(60, 900)):
+        core = ''.join(rng.choice('ABcd19 ., ') for _ in range(rng.randrange(1, 9))).strip() or 'Q'
+        if rng.random() < 0.5:
+            core = core.replace(' ', rng.choice((' ', '  ', '   ')), 1)
+        lead, trail = ' ' * rng.choice((0, 0, 1, 3)), ' ' * rng.choice((0, 0, 1, 2))
+        body = lead + core + trail
+        term = rng.choice(('zero', 'bit7', 'end255', 'length'))
+        if term == 'bit7' and body.endswith(' ') and rng.random() < 0.5:
+            body = body.rstrip() or 'Q'
+        data = [ord(c) for c in body]
+        addr = rng.choice((30000, 49152, 65536 - len(data) - 1, 16384))
+        if term == 'zero':
+            data.append(0)
+        elif term == 'bit7':
+            data[-1] |= 128
+        elif term == 'end255':
+            data.append(255)
+        else:
+            data.append(rng.choice((65, 0, 200)))
+        flags = rng.choice((0, 0, 1, 2, 3, 4, 5, 6, 7))
+        exp = body
+        if flags & 1:
+            exp = exp.rstrip()
+        if flags & 2:
+            exp = exp.lstrip()
+        if term == 'end255':
+            text = '[#STR(%d,%d)(%s)]' % (addr, flags + 8, rng.choice(('$b==255', '$b>200', '$b&128')))
+        elif term == 'length':
+            text = '[#STR(%d,%d,%d)]' % (addr, flags, len(body))
+        else:
+            text = '[#STR%d%s]' % (addr, ',%d' % flags if flags or rng.random() < 0.3 else '')
+        pokes = '#POKES' + ';'.join('%d,%d' % (addr + i, b) for i, b in enumerate(data))
+        for html in (False, True):
+            w = env.writer(html)
+            real_expand(env, w, pokes)
+            got = exact(w, html, text)
+            note_case(chk, 'sem-str-flags', ('strf', body, term, flags, html), {'poked': body, 'text': text, 'expected': '[' + exp + ']'})
+            if got != '[' + exp + ']':
+                chk.violation('semantics-str-flags', f'after poking {body!r} (+ terminator: {term}) at {addr}: {text!r} gives {got!r}, documented: {"[" + exp + "]"!r} (html={html})',
+                              {'kind': 'hist', 'html': html, 'base': 0, 'case': 0, 'history': [pokes, text], 'expected': '[' + exp + ']', 'nbsp': True})
+                break
+    # #WHILE(expr)(body): the body is expanded while expr is true, each expansion stripped; #FORMAT[case](text)
+    for _ in range(chk.scale(40, 600)):
+        k, dec = rng.randrange(0, 6), rng.choice((1, 1, 2))
+        inner = rng.choice(('#EVAL({a})', '<#EVAL({a}*2)>', '#N({a}) x', 'y', '#IF({a}>2)(big,#EVAL({a}))'))
+        pad = rng.choice(('', ' ', '  '))
+        dl, dr = rng.choice(('()', '[]', '//', '||'))
+        text = '#LET(a=%d)[#WHILE({a}>0)%s%s%s#LET(a={a}-%d)%s%s]' % (k, dl, pad, inner, dec, pad, dr)
+        vals = list(range(k, 0, -dec))
+        piece = {'#EVAL({a})': str, '<#EVAL({a}*2)>': lambda v: '<%d>' % (v * 2), '#N({a}) x': lambda v: '%d x' % v, 'y': lambda v: 'y',
+                 '#IF({a}>2)(big,#EVAL({a}))': lambda v: 'big' if v > 2 else str(v)}[inner]
+        exp = '[' + ''.join(piece(v) for v in vals) + ']'
+        s_val = rng.choice(('AbC', 'x Y', 'q'))
+        case = rng.choice((None, 0, 1, 2))
+        ftext = '#LET(s$=%s)#LET(a=%d)#FORMAT%s%s' % (s_val, k, '' if case is None else case, rng.choice(('(%s)', '[%s]', '/%s/', '{%s}')) % 'Val={s$}-{a}|Zz')
+        fexp = 'Val=%s-%d|Zz' % (s_val, k)
+        fexp = fexp.lower() if case == 1 else fexp.upper() if case == 2 else fexp
+        for html in (False, True):
+            for t, e, key in ((text, exp, 'while'), (ftext, fexp, 'format')):
+                got = exact(env.writer(html), html, t)
+                note_case(chk, 'sem-' + key, (key, t, html), {'text': t, 'expected': e})
+                if got != e:
+                    chk.violation('semantics-' + key, f'{t!r} gives {got!r}, documented: {e!r} (html={html})',
+                                  {'kind': 'hist', 'html': html, 'base': 0, 'case': 0, 'history': [t], 'expected': e, 'nbsp': True})
+    # #CHRnum[,flags]: flag 2 maps 94/96/127 to the ZX Spectrum characters (and nothing else), flag 1 selects the
+    # character itself instead of a numeric character reference in HTML mode
+    for num in (32, 65, 93, 94, 95, 96, 97, 126, 127, 128, 163, 169, 255, 8593):
+        for flags in (None, 0, 1, 2, 3):
+            code = {94: 8593, 96: 163, 127: 169}.get(num, num) if flags in (2, 3) else num
+            text = '[#CHR%d%s]' % (num, '' if flags is None else ',%d' % flags) if rng.random() < 0.5 else '[#CHR(%d%s)]' % (num, '' if flags is None else ',%d' % flags)
+            for html, base, case, w in writers[:1] + writers[3:4]:
+                r = real_expand(env, w, text)
+                exp = '[&#%d;]' % code if html and flags in (None, 0, 2) else '[%s]' % chr(code)
+                note_case(chk, 'sem-chr', ('chr', text, html), {'text': text, 'expected': exp})
+                if r != 'ok ' + codes(exp):
+                    chk.violation('semantics-chr', f'{text!r} (html={html}) gives {decode(r) if r.startswith("ok") else r!r}, documented: {exp!r}',
+                                  {'kind': 'sem', 'html': html, 'base': base, 'case': case, 'text': text, 'expected': exp, 'exact': True})
+    # string parameter lists in every delimiter form: commas between parentheses are retained whenever the separator
+    # is a comma; with another separator the parameters are split at every separator
+    for parts in (['a', '(b,c)', 'd'], ['(x,y)'], ['p', 'f(1,(2,3))', ''], ['', '(,)'], ['a b', '(c, d)'], ['u', 'v'], ['(m,n)', '(o,p)', 'q', 'r']):
+        exp = ''.join('[%s]' % x for x in parts)
+        body = ','.join(parts)
+        forms = ['(%s)' % body, '[%s]' % body, '{%s}' % body, '/,%s,/' % body, '|,%s,|' % body, '!,%s,!' % body]
+        for d1, sep in (('/', ';'), ('/', '/'), ('|', ':'), ('@', '|'), (':', ';')):
+            if all(x and sep not in x and d1 not in x for x in parts):
+                forms.append(d1 + sep + sep.join(parts) + sep + d1)
+        for f in forms:
+            both('#FOREACH%s(n,[n])' % f, exp, 'string-params', {'form': f, 'parts': parts})
+        if len(parts) == 2:
+            for f in forms:
+                both('#IF(1)%s' % f, parts[0], 'string-params', {'form': f})
+                both('#IF(0)%s' % f, parts[1], 'string-params', {'form': f})
+    # #PUSHS[name]: the name is limited to '$', '#', 0-9, A-Z, a-z; whatever follows is text
+    names = ('', 'x', 'name1', '$#', 'a$', '9', 'q#1')
+    for i, tail in enumerate(('_y', '-1', '.', ',z', ':', ';', '(a)', '[b]', '{c}', '/', '_', '~', '!k', '=', '+2', '*', '%', '@', '|', "'", '"', '<', '>', '&', '?', '^', '\\')):
+        for name in (names[i % len(names)], names[(i + 3) % len(names)]):
+            text = '#PUSHS%s%s#POPS' % (name, tail)
+            for html, base, case, w in writers[:1] + writers[3:4]:      # (a #POPS copies 64K: two writers only)
+                r = real_expand(env, w, text)
+                note_case(chk, 'sem-pushs-name', ('pushs-name', text, html), {'name': name, 'tail': tail})
+                if not r.startswith('ok') or canon(decode(r)) != canon(tail):
+                    chk.violation('semantics-pushs-name', f'{text!r} expands to {decode(r) if r.startswith("ok") else r!r} (html={html}), documented: the name ends at {tail[0]!r}, giving {tail!r}',
+                                  {'kind': 'sem', 'html': html, 'base': base, 'case': case, 'text': text, 'expected': tail})
     # #LET visible later, across separate expand calls; #PEEK after #POKES; push/pop restores
     for _ in range(chk.scale(120, 2000)):
         for html in (False, True):
@@ -1095,6 +1215,40 @@ def e2e_semantics(chk, env):
                     chk.violation('semantics-let-visible', f'after {hist[:-1]!r}, {q!r} gives {r!r}, expected {exp!r}',
                                   {'kind': 'hist', 'html': html, 'base': 0, 'case': 0, 'history': hist, 'expected': exp})
                     break
+    # dictionary variables: #LET(name[]=(default[,k1[:v1],...])), #LET(name[key]=value), fields {name[key]}
+    for _ in range(chk.scale(60, 900)):
+        keys = rng.sample(range(0, 12), rng.randrange(0, 5))
+        strs_ = rng.random() < 0.4
+        name = rng.choice(('n', 'dd', 'tbl')) + ('$' if strs_ else '')
+        dflt = rng.choice(('?', 'none', 'z')) if strs_ else rng.randrange(0, 100)
+        vals = {}
+        pairs = []
+        for k in keys:
+            if rng.random() < 0.2:
+                vals[k] = str(k) if strs_ else k          # value omitted: defaults to the key
+                pairs.append(str(k))
+            else:
+                vals[k] = rng.choice(('a', 'bb', 'x y', 'Q')) if strs_ else rng.randrange(0, 1000)
+                pairs.append('%s:%s' % (rng.choice((str(k), '$%X' % k, '%d+0' % k)), vals[k]))
+        body = ','.join([str(dflt)] + pairs)
+        hist = ['#LET(%s[]=%s)' % (name, rng.choice(('(%s)', '[%s]', '/,%s,/')) % body)]
+        if rng.random() < 0.5:
+            k2 = rng.randrange(0, 12)
+            vals[k2] = rng.choice(('new', 'w')) if strs_ else rng.randrange(0, 1000)
+            hist.append('#LET(%s[%s]=%s)' % (name, rng.choice((str(k2), '%d+1' % (k2 - 1), '#EVAL(%d)' % k2)), vals[k2]))
+        probes = rng.sample(range(0, 12), 3)
+        q = '|'.join(('#FORMAT0({%s[%d]})' if strs_ else '#EVAL({%s[%d]})') % (name, k) for k in probes)
+        exp = '|'.join(str(vals.get(k, dflt)) for k in probes)
+        for html in (False, True):
+            w = env.writer(html)
+            for t in hist:
+                real_expand(env, w, t)
+            r = real_expand(env, w, q)
+            note_case(chk, 'sem-let-dict', ('letdict', tuple(hist), q, html), {'history': hist + [q], 'expected': exp})
+            if not r.startswith('ok') or canon(decode(r)) != canon(exp):
+                chk.violation('semantics-let-dictionary', f'after {hist!r}, {q!r} gives {decode(r) if r.startswith("ok") else r!r}, documented: {exp!r} (html={html})',
+                              {'kind': 'hist', 'html': html, 'base': 0, 'case': 0, 'history': hist + [q], 'expected': exp, 'canon': True})
+                break
     for _ in range(chk.scale(150, 2500)):
         html = rng.random() < 0.5
         w = env.writer(html)
@@ -1127,6 +1281,11 @@ def e2e_semantics(chk, env):
         # #POKES frame
         addr, byte, length, step = rng.choice((0, 5, 16383, 65534, 65535, 40000)), rng.randrange(256), rng.choice((1, 2, 3, 7, 400)), rng.choice((1, 2, 3, 255, 256, 8192))
         text = '#POKES%d,%d,%d,%d' % (addr, byte, length, step)
+        if rng.random() < 0.3:
+            # downwards (addr + i*step with a negative step), kept inside the address space
+            length, step = rng.choice((1, 2, 3, 7)), rng.choice((-1, -1, -2, -3, -256))
+            addr = rng.choice((65535, 40000, 16384 + (length - 1) * -step, (length - 1) * -step))
+            text = '#POKES(%d,%d,%d,%d)' % (addr, byte, length, step)
         real_expand(env, w, text)
         after2 = w.snapshot[0:65536]
         cells = {(addr + i * step) % 65536 for i in range(length)}
@@ -1139,6 +1298,292 @@ def e2e_semantics(chk, env):
         r = real_expand(env, w, '#PEEK%d' % a)
         if r != 'ok ' + codes(str(byte)):
             chk.violation('semantics-peek-after-pokes', f'{text!r} then #PEEK{a} gives {r!r}', {'kind': 'pokes', 'html': html, 'text': text})
+
+
+class Nest:
+    """Integer-valued texts built together with their documented value: literals, replacement fields of variables
+    bound by the history, sums/products, and *nested macros whose own string arguments use every delimiter form*
+    (parentheses, square brackets, braces, alternative delimiter + separator) — the forms the documentation of
+    numeric parameters allows inside a parenthesised parameter list. The oracle is the construction itself."""
+
+    def __init__(self, rng, ivars):
+        self.rng = rng
+        self.ivars = dict(ivars)        # variables bound by #LET before the text is expanded (never re-bound by the text)
+        self.fresh = 0
+        self.prebound = []              # #LET texts for the history: earlier values of variables the text re-binds
+
+    @staticmethod
+    def bare_comma(s):
+        """a comma outside parentheses (what `_split_unbracketed` would split on)"""
+        depth = 0
+        for c in s:
+            if c == '(':
+                depth += 1
+            elif c == ')':
+                depth -= 1
+            elif c == ',' and depth <= 0:
+                return True
+        return False
+
+    def strs(self, parts, forms='([{a'):
+        """parts as a string parameter list, in a delimiter form that the documentation allows for them"""
+        r = self.rng
+        body_chars = ''.join(parts)
+        ok = []
+        nocomma = not any(self.bare_comma(p) for p in parts)
+        for f in forms:
+            if f == '(' and nocomma and body_chars.count('(') == body_chars.count(')'):
+                ok.append(f)
+            elif f == '[' and nocomma and '[' not in body_chars and ']' not in body_chars:
+                ok.append(f)
+            elif f == '{' and nocomma and all(self.balanced(p, '{', '}') for p in parts):
+                ok.append(f)
+            elif f == 'a':
+                ok.append(f)
+        f = r.choice(ok)
+        if f == 'a':
+            for _ in range(50):
+                d1, sep = r.choice('/|:;!@'), r.choice('/|:;')
+                if d1 != sep and d1 not in body_chars and sep not in body_chars:
+                    return d1 + sep + sep.join(parts) + sep + d1
+            return None
+        o, c = {'(': '()', '[': '[]', '{': '{}'}[f]
+        return o + ','.join(parts) + c
+
+    @staticmethod
+    def balanced(s, o, c):
+        depth = 0
+        for ch in s:
+            if ch == o:
+                depth += 1
+            elif ch == c:
+                depth -= 1
+                if depth < 0:
+                    return False
+        return depth == 0
+
+    def lit(self):
+        r = self.rng
+        v = r.choice((0, 1, 2, 3, 5, 7, 10, 16, 100, 255, 256, r.randrange(1000)))
+        return (str(v) if r.random() < 0.7 else '$%X' % v), v
+
+    def val(self, d):
+        """(text, value): an integer parameter valid inside a parenthesised parameter list"""
+        r = self.rng
+        k = r.random()
+        if d <= 0 or k < 0.12:
+            if self.ivars and r.random() < 0.35:
+                n = r.choice(sorted(self.ivars))
+                return '{%s}' % n, self.ivars[n]
+            return self.lit()
+        if k < 0.24:
+            (ta, va), (tb, vb) = self.val(d - 1), self.val(d - 1)
+            op = r.choice('+*-')
+            # operands are parenthesised: the expansion of a nested loop is itself a sum
+            return '(%s)%s(%s)' % (ta, op, tb), {'+': va + vb, '*': va * vb, '-': va - vb}[op]
+        for _ in range(20):
+            res = self.nested(d, r.choice(('if', 'if', 'if', 'for', 'for', 'foreach', 'foreach', 'map', 'eval', 'evalhex', 'n', 'format',
+                                            'let', 'pokepeek', 'ifvar', 'hash')))
+            if res is not None and res[0] is not None:
+                return res
+        return self.lit()
+
+    def nested(self, d, kind):
+        r = self.rng
+        if kind == 'if':
+            (tc, vc) = self.val(d - 1) if r.random() < 0.4 else r.choice((('1', 1), ('0', 0), ('2>1', 1), ('1==2', 0)))
+            (ta, va), (tb, vb) = self.val(d - 1), self.val(d - 1)
+            s = self.strs([ta, tb])
+            return (None if s is None else '#IF(%s)%s' % (tc, s)), (va if vc else vb)
+        if kind == 'ifvar' and self.ivars:
+            n = r.choice(sorted(self.ivars))
+            (ta, va), (tb, vb) = self.val(d - 1), self.val(d - 1)
+            lim = r.choice((self.ivars[n], self.ivars[n] + 1, 0))
+            s = self.strs([ta, tb])
+            return (None if s is None else '#IF({%s}<%d)%s' % (n, lim, s)), (va if self.ivars[n] < lim else vb)
+        if kind == 'for':
+            lo, hi = r.randrange(0, 4), r.randrange(0, 6)
+            if hi < lo:
+                lo, hi = hi, lo
+            var = r.choice(('k', 'q', 'zz'))       # not a substring of a variable name used in the body
+            form = r.random()
+            if form < 0.4 or not self.ivars:
+                body, f = var, (lambda i: i)
+            elif form < 0.7:
+                n = r.choice(sorted(self.ivars))
+                body, f = '%s*{%s}' % (var, n), (lambda i, m=self.ivars[n]: i * m)
+            else:
+                body, f = '(%s+1)*2' % var, (lambda i: (i + 1) * 2)
+            s = self.strs([var, body, '+'])
+            return (None if s is None else '#FOR(%d,%d)%s' % (lo, hi, s)), sum(f(i) for i in range(lo, hi + 1))
+        if kind == 'foreach':
+            vals = [r.randrange(0, 20) for _ in range(r.randrange(1, 5))]
+            var = r.choice(('k', 'q', 'zz'))       # not a substring of a variable name used in the body
+            if self.ivars and r.random() < 0.5:
+                n = r.choice(sorted(self.ivars))
+                body, f = '%s*{%s}' % (var, n), (lambda i, m=self.ivars[n]: i * m)
+            else:
+                body, f = var, (lambda i: i)
+            s1, s2 = self.strs([str(v) for v in vals]), self.strs([var, body, '+'])
+            return (None if s1 is None or s2 is None else '#FOREACH%s%s' % (s1, s2)), sum(f(v) for v in vals)
+        if kind == 'map':
+            (tk, vk) = self.val(d - 1)
+            keys = r.sample(range(0, 12), r.randrange(1, 4))
+            if r.random() < 0.6:
+                keys[0] = vk
+            outs = {k: r.randrange(0, 50) for k in keys}
+            dflt = r.randrange(50, 60)
+            s = self.strs([str(dflt)] + ['%d:%d' % (k, outs[k]) for k in keys])
+            return (None if s is None else '#MAP(%s)%s' % (tk, s)), outs.get(vk, dflt)
+        if kind == 'eval':
+            t, v = self.val(d - 1)
+            return '#EVAL(%s)' % t, v
+        if kind == 'evalhex':
+            t, v = self.val(d - 1)
+            if v < 0:
+                return None
+            return '$#EVAL(%s,16)' % t, v
+        if kind == 'n':
+            t, v = self.val(d - 1)
+            if v < 0:
+                return None
+            return '#N(%s)' % t, v          # decimal writers only
+        if kind == 'format' and self.ivars:
+            n = r.choice(sorted(self.ivars))
+            return r.choice(('#FORMAT0({%s})', '#FORMAT/{%s}/', '#FORMAT0{{%s}}', '#FORMAT0[{%s}]', '#FORMAT|{%s}|')) % n, self.ivars[n]
+        if kind == 'let':
+            # a nested #LET binds a variable that a replacement field later in the same parameter string reads. The
+            # variable is fresh (read nowhere else in the text), so the value does not depend on whether the enclosing
+            # branch is selected or on the order in which other fields are substituted; the history may have bound
+            # it to another value before
+            if self.fresh >= 26:
+                return None
+            n = 'v' + 'abcdefghijklmnopqrstuvwxyz'[self.fresh]
+            self.fresh += 1
+            t, v = self.val(d - 1)
+            s = self.strs(['%s=%s' % (n, t)], forms='([a' if '{' in t else '([{a')
+            if s is None:
+                return None
+            if s[0] not in '([{':
+                s = s[0] + s[2:-2] + s[0]      # single string parameter: one delimiter character, no separator
+                if s[0] in t:
+                    return None
+            if r.random() < 0.5:
+                self.prebound.append('#LET(%s=%d)' % (n, r.randrange(0, 9)))
+            return '#LET%s{%s}' % (s, n), v
+        if kind == 'pokepeek':
+            a = r.choice((30000, 65535, 16384, 45000 + r.randrange(1000)))     # cells no context pokes
+            (tv, vv) = self.val(d - 1)
+            if not 0 <= vv < 256 or '#PEEK' in tv:
+                return None
+            return '#POKES(%d,%s)#PEEK(%d)' % (a, tv, a), vv
+        if kind == 'hash':
+            t, v = self.val(d - 1)
+            return '#EVAL#((%s))' % t, v
+        return None
+
+
+def e2e_nested(chk, env):
+    """Macros nested inside integer parameters, with every delimiter form for the nested macro's own string
+    arguments (documentation of numeric parameters: a parenthesised parameter may contain skool macros and
+    replacement fields; documentation of string parameters: (..), [..], {..} or delimiter+separator), and nested
+    #LET followed by a replacement field. Values are known by construction; both writers must produce them."""
+    rng = chk.rng
+    fixed = [('#EVAL(#IF(1){2,3})', '2'), ('#EVAL(#IF(0){2,3})', '3'), ('#EVAL(#FOR(1,3){n,n,+})', '6'),
+             ('#N(#IF(0)[2,3]+#IF(1){4,5})', '7'), ('#LET(a=2)#EVAL(#FOREACH[1,2,3]{n,n*{a},+})', '12'),
+             ('#LET(x=1)#EVAL(#LET(x=5){x})', '5'), ('#LET(x=1)#EVAL({x}+#LET(x=5)0)', '5'), ('#EVAL(#MAP(2){0,1:5,2:7})', '7'),
+             ('#LET(a=4)#EVAL(#IF({a}>3){{a},0}*2)', '8'), ('#LET(a=4)#IF(#IF(1){{a},0}==4){yes,no}', 'yes'),
+             ('#LET(a=3)#FOR(1,#IF(1){{a},9})(n,n,;)', '1;2;3'), ('#LET(a=65)#CHR(#IF(1){{a},9})', 'A'),
+             ('#POKES(30000,#IF(1){7,8})#PEEK(30000)', '7'), ('#LET(a=2)#PEEK(#POKES(30000+{a},9)#IF(1){30002,0})', '9'),
+             ('#LET(a=2)#MAP(#IF(1){{a},0})(x,2:hit)', 'hit'), ('#LET(a=2)#LET(b=#IF(1){{a}+1,0})#EVAL({b})', '3'),
+             ('#LET(a=2)[#SPACE(#IF(1){{a},9})]', '[  ]'), ('#LET(a=2)#EVAL#((#IF(1){{a},9}+1))', '3'),
+             ('#LET(a=7)#EVAL(#FORMAT0{{a}}+1)', '8'), ('#LET(a=1)#LET(b=2)#EVAL(#FOR({a},{b}){n,n*{b},+})', '6'),
+             ('#LET(n$=ab)#IF(#IF(1){1,0}){{n$},x}', '{n$}'), ('#EVAL(#IF(1)/|2|3|/)', '2'), ('#EVAL(#FOREACH{1,2}[n,n,+])', '3')]
+    writers = None
+
+    def check(history, text, exp, tag):
+        for html in (False, True):
+            w = env.writer(html)
+            hist = list(history) + [text]
+            r = None
+            for t in hist:
+                r = real_expand(env, w, t)
+            note_case(chk, 'sem-nested-' + tag, ('nested', tuple(hist), html), {'history': hist, 'expected': exp})
+            got = decode(r) if r.startswith('ok') else r
+            if '#SPACE' in text and r.startswith('ok'):
+                # white space is what #SPACE is about: compared exactly (the HTML writer emits &#160;)
+                bad = (htmllib.unescape(got).replace('\xa0', ' ') if html else got) != exp
+            else:
+                bad = not r.startswith('ok') or canon(got) != canon(exp)
+            if bad:
+                macros = '+'.join(sorted(set(re.findall(r'#[A-Z]+', text))))
+                chk.violation('semantics-nested-int-parameter:' + macros,
+                              f'after {list(history)!r}, {text!r} expands to {got!r} (html={html}); the documented semantics (nested macros are '
+                              f'expanded, then replacement fields are substituted, then the parameters are evaluated) give {exp!r}',
+                              {'kind': 'hist', 'html': html, 'base': 0, 'case': 0, 'history': hist, 'expected': exp, 'canon': True,
+                               'nbsp': '#SPACE' in text})
+                return False
+        return True
+
+    nbad = sum(not check([], text, exp, 'fixed') for text, exp in fixed)
+    for _ in range(chk.scale(450, 6000)):
+        if nbad >= 8:
+            break                    # enough concrete inputs
+        ivars = {n: rng.randrange(0, 9) for n in rng.sample(['a', 'b', 'c', 'nv'], rng.randrange(0, 4))}
+        history = ['#LET(%s=%d)' % (n, v) for n, v in sorted(ivars.items())]
+        nest = Nest(rng, ivars)
+        d = rng.choice((1, 1, 2, 2, 3))
+        t, v = nest.val(d)
+        if '#' not in t:
+            continue
+        ctx = rng.choice(('eval', 'eval', 'n', 'if', 'map', 'for', 'chr', 'space', 'peek', 'pokes', 'let', 'evalw', 'def'))
+        if ctx == 'eval':
+            text, exp = '#EVAL(%s)' % t, str(v)
+        elif ctx == 'evalw':
+            t2, v2 = nest.val(1)
+            if not 0 <= v2 <= 12:
+                t2, v2 = '3', 3
+            text = '#EVAL(%s,10,%s)' % (t, t2)
+            exp = ('-' if v < 0 else '') + str(abs(v)).rjust(v2 - (1 if v < 0 else 0), '0')
+        elif ctx == 'n':
+            if v < 0:
+                continue
+            text, exp = '#N(%s)' % t, str(v)
+        elif ctx == 'if':
+            text, exp = '#IF(%s==%d)%s' % (t, v + rng.choice((0, 0, 1)), rng.choice(('(yes,no)', '[yes,no]', '{yes,no}', '/|yes|no|/'))), None
+            exp = 'yes' if text.startswith('#IF(%s==%d)' % (t, v)) else 'no'
+        elif ctx == 'map':
+            text, exp = '#MAP(%s)%s' % (t, rng.choice(('(miss,%d:hit)', '[miss,%d:hit]', '{miss,%d:hit}')) % v), 'hit'
+        elif ctx == 'for':
+            t2, v2 = nest.val(1)
+            if not (-3 <= v <= 30 and -3 <= v2 <= 30 and abs(v2 - v) < 12):
+                continue
+            text, exp = '#FOR(%s,%s)(n,[n],;)' % (t, t2), ';'.join('[%d]' % i for i in range(v, v2 + 1))
+        elif ctx == 'chr':
+            if not 0 <= v <= 25:
+                continue
+            text, exp = '#CHR(65+%s)' % (t if '-' not in t else '(%s)' % t), chr(65 + v)
+        elif ctx == 'space':
+            if not 0 <= v <= 8:
+                continue
+            text, exp = '[#SPACE(%s)]' % t, '[' + ' ' * v + ']'
+        elif ctx == 'peek':
+            if not 0 <= v <= 200:
+                continue
+            history.append('#POKES%d,%d' % (40000 + v, 77))
+            text, exp = '#PEEK(40000+%s)' % (t if '-' not in t else '(%s)' % t), '77'
+        elif ctx == 'pokes':
+            if not 0 <= v <= 255:
+                continue
+            text, exp = '#POKES(50000,%s)#PEEK50000' % t, str(v)
+        elif ctx == 'let':
+            text, exp = '#LET(res=%s)#EVAL({res})' % t, str(v)
+        else:
+            history.append('#DEF(#ZQSUM(p,q=1) #EVAL($p*2+$q))')
+            text, exp = '#ZQSUM(%s)' % t, str(v * 2 + 1)
+        if not safe_text(text):
+            continue
+        nbad += not check(nest.prebound + history, text, exp, ctx)
 
 
 MODE_INDEPENDENT = {'#' + m for m in ('EVAL', 'N', 'IF', 'MAP', 'FOR', 'FOREACH', 'WHILE', 'LET', 'FORMAT', 'DEF', 'PEEK', 'POKES', 'PUSHS',
@@ -1159,10 +1604,10 @@ def e2e_def(chk, env):
         inames = rng.sample(['a', 'b', 'c', 'len'], rng.randrange(1, 4))
         ndef = rng.randrange(0, len(inames) + 1)
         defaults = {n: rng.randrange(0, 50) for n in inames[len(inames) - ndef:]}
-        flags = rng.choice((0, 0, 0, 1))
+        flags = rng.choice((0, 0, 0, 1, 1, 2, 3))      # 1: replacement fields; 2: expanded in isolation, output stripped
         sname = rng.choice((None, None, 's'))
-        sdefault = rng.choice((None, 'dflt', '')) if sname else None
-        if flags:
+        sdefault = rng.choice((None, 'dflt', '', 'REF')) if sname else None
+        if flags & 1:
             ph = lambda n: '{%s}' % n
         else:
             ph = lambda n: rng.choice(('$%s', '${%s}')) % n
@@ -1176,6 +1621,8 @@ def e2e_def(chk, env):
         if sname:
             body += '<' + ph(sname) + '>'
         sig = ','.join(n + ('=%d' % defaults[n] if n in defaults else '') for n in inames)
+        if sdefault == 'REF':
+            sdefault = '<%s>' % ph(inames[0])        # the default of a string parameter may refer to an integer argument
         ssig = '' if not sname else '(%s%s)' % (sname, '' if sdefault is None else '=' + sdefault)
         define = '#DEF%s(#%s(%s)%s %s)' % (flags or '', name, sig, ssig, body)
         # a call: required arguments always, optional ones sometimes; positional or keyword
@@ -1200,7 +1647,7 @@ def e2e_def(chk, env):
                 sval = rng.choice(('str', 'x y', 'Q'))
                 call += '(%s)' % sval
             else:
-                sval = sdefault
+                sval = sdefault if not sdefault.startswith('<') else '<%d>' % eff[inames[0]]
         if kind == 'list':
             exp = '[' + '|'.join(str(eff[n]) for n in inames) + ']'
         elif kind == 'sum':
@@ -1372,12 +1819,16 @@ def e2e_tools(chk, env, gen):
     rng = chk.rng
     gen.e2e = True
     n_ok = 0
-    for k in range(chk.scale(45, 700)):
+    # directed: markup characters passing through macros (the HTML tool must escape them: they are text, not tags)
+    markup = ['#FOR(1,2)(n,<n>)', '#FOREACH(a,b)(n,n&n,>)', '#IF(1)(<x>,y)[#MAP(1)(a,1:<b>)]', '#LET(a=1)#FORMAT(<{a}>&)[#EVAL(1<2)]',
+              '#FOR(1,3)(n,#IF(n<2)(<,>),&)']
+    for k in range(len(markup) + chk.scale(45, 700)):
         base, case = rng.choice(((0, 0), (0, 0), (16, 1), (10, 2), (16, 0))), None
         base, case = base
         depth = rng.choice((1, 2, 2, 3, 4))
-        text = closed_text(gen, depth)
-        if any(c in text for c in '<>&') and rng.random() < 0.9:
+        directed = k < len(markup)
+        text = markup[k] if directed else closed_text(gen, depth)
+        if not directed and any(c in text for c in '<>&') and rng.random() < 0.9:
             continue
         expands = [rng.choice((gen.m_LET, gen.m_POKES))(1) for _ in range(rng.randrange(0, 3))]
         expands = [e for e in expands if safe_text(e) and '\n' not in e]
@@ -1403,7 +1854,7 @@ def e2e_tools(chk, env, gen):
             continue
         n_ok += 1
         if not probe.startswith('ok') or not probe_h.startswith('ok') or not charref_ok(decode(probe_h)) or not printable(decode(probe)) \
-                or '<' in decode(probe_h) or '>' in decode(probe_h):      # raw markup (#CHR(60,1)) cannot be told from tags
+                or ((not directed) and ('<' in decode(probe_h) or '>' in decode(probe_h))):      # raw markup (#CHR(60,1)) cannot be told from tags
             continue                 # control characters do not survive the line formatting of either tool
         vals_a = set().union(*asm.values()) if asm else set()
         vals_h = set().union(*html.values()) if html else set()
@@ -1457,7 +1908,13 @@ def run(chk):
                 'integer parameters as literals, $hex, arithmetic expressions over all operators, nested macros and replacement '
                 'fields, preceded by histories of #LET/#POKES/#PUSHS/#POPS, x {ASM, HTML} x base {0,10,16} x case {0,1,2}; plus '
                 'malformed texts and character soups for evaluate/parse_strings/parse_ints. non-trivial = contains an operator / '
-                'a macro (distinct by text+mode); e2e cases are distinct by text')
+                'a macro (distinct by text+mode); e2e cases are distinct by text. Directed e2e groups (oracle = construction / '
+                'documentation): integer-valued texts with nested #IF/#FOR/#FOREACH/#MAP/#EVAL/#N/#FORMAT/#LET/#POKES+#PEEK/#() whose own '
+                'string arguments use every delimiter form, inside the integer parameters of #EVAL #N #IF #MAP #FOR #CHR #SPACE #PEEK #POKES '
+                '#LET and #DEF-defined macros (sem-nested-*); string parameter lists in every delimiter/separator form with parenthesised '
+                'commas; #CHR and #STR flags, terminators and lengths; #PUSHS name character set; #FOR flag 4, empty fsep; #MAP values with '
+                'colons; #IF on signed integers; #POKES with negative steps; dictionary variables; #WHILE; #FORMAT case; #DEF flags 0-3 with '
+                'string defaults that refer to integer arguments; markup characters (< > &) passing through macros in both tools')
     chk.trusted += ['hand models lean/SkoolVerif/Model/Macro{Text,Expr,Args,Ops,Expand}.lean tied by correspondence (harness/props/c17.py)',
                     'CPython (eval() is the reference the evaluator model is tied to; html.unescape; str.format)']
     chk.assumptions += ['theorems are about the model; the real code is tied to it by differential execution on generated inputs only',
@@ -1482,6 +1939,7 @@ def run(chk):
     corr_expand(chk, env, gen)
     e2e_semantics(chk, env)
     e2e_def(chk, env)
+    e2e_nested(chk, env)
     e2e_modes(chk, env, gen)
     e2e_tools(chk, env, gen)
     probe_strip(chk, env)
@@ -1503,6 +1961,9 @@ def replay(chk, data):
         r = None
         for t in data['history']:
             r = real_expand(env, w, t)
+        if data.get('nbsp') and r.startswith('ok'):
+            got = decode(r)
+            return (htmllib.unescape(got).replace('\xa0', ' ') if data['html'] else got) != data['expected']
         if data.get('canon'):
             return not r.startswith('ok') or canon(decode(r)) != canon(data['expected'])
         return r != 'ok ' + codes(data['expected'])
@@ -1516,7 +1977,7 @@ def replay(chk, data):
     if kind == 'pokes':
         w = env.writer(data['html'])
         before = w.snapshot[0:65536]
-        m = re.match(r'#POKES(\d+),(\d+),(\d+),(\d+)', data['text'])
+        m = re.match(r'#POKES\(?(\d+),(\d+),(\d+),(-?\d+)', data['text'])
         addr, byte, length, step = map(int, m.groups())
         real_expand(env, w, data['text'])
         cells = {(addr + i * step) % 65536 for i in range(length)}
